@@ -690,6 +690,9 @@ func (w *World) Arrange(rel, inp string) error {
 	// "unconfc": the renter funds with an unconfirmed output whose parent the network confirms in
 	// a block the renter has not seen -- the sweep is made now, at the common tip, and handed to
 	// the network before the chains diverge
+	if inp == "forkc" && rel != "fork" && rel != "forkx" {
+		return errors.New("forkc needs a renter on its own fork")
+	}
 	if inp == "unconfc" {
 		if rel == "same" {
 			return errors.New("unconfc needs a renter that lags")
@@ -712,7 +715,21 @@ func (w *World) Arrange(rel, inp string) error {
 		}
 	case "fork", "forkx":
 		// the renter extends the common tip by its own (empty) blocks; the network finds a longer branch
-		fork, err := w.mineEmptyOn(w.renter, forkLen)
+		var fork []types.Block
+		var err error
+		if inp == "forkc" {
+			// the renter's funds are swept into one output by a transaction that only the renter's
+			// own fork confirms: a confirmed input that does not exist below the common ancestor
+			if err := w.makeUnconfirmed(); err != nil {
+				return err
+			}
+			fork, err = w.mineOn(w.renter, types.VoidAddress, forkLen)
+			if err == nil && len(w.renter.cm.V2PoolTransactions()) != 0 {
+				err = errors.New("the renter's fork did not confirm its sweep")
+			}
+		} else {
+			fork, err = w.mineEmptyOn(w.renter, forkLen)
+		}
 		if err != nil {
 			return err
 		}
